@@ -25,17 +25,17 @@ func (Prop) Describe() core.Description {
 	return core.Description{
 		Level: "fault_enumeration",
 		Rule: "enumerated part (walked completely, every tier): 6 helpers x {V, *P} x 8 behaviours of the type under test x 4 Before x 4 After hook behaviours x 23 predicate kinds (met, unmet, near-miss, one-byte-longer, empty and two caller-written silent variants) x 3 constraints x 4 positions {only, first, middle, last of 3} (+ TypeHelper variants, + types lacking the interface under both FailNow environments); " +
-			"seeded part: lists of 0-12 cases (one list in 40: 13-64 cases) with tape-chosen combinations, several faults per list, 9 type shapes (V, *P, *V, interface-typed Both, string-kinded Str, slice-kinded Bytes, OnlyM, OnlyU, None), both TestingT environments, optional recording TypeHelper, singleton re-runs of every case. " +
+			"seeded part: lists of 0-12 cases (one list in 40: 13-64 cases) with tape-chosen combinations, several faults per list, 11 type shapes (V, *P, *V, interface-typed Both, string-kinded Str, slice-kinded Bytes, map-kinded Map, integer-kinded Num, OnlyM, OnlyU, None), both TestingT environments, optional recording TypeHelper, singleton re-runs of every case. " +
 			"Oracle written from the statement: per case, failure reported <=> applicable and unsatisfied (L2), nothing for inapplicable cases (L4), no panic escapes (L3), type lacking the interface reported (L1), hooks receive their case's list position (L5). " +
 			"A list is non-trivial if a collaborator fault fired in an applicable case; distinct = distinct (helper, shape, position class, constraint, behaviour, hooks, predicate, verdict) tuples reached",
 		Assumptions: []string{
 			"a panic of the type under test counts as an error whose text begins 'panic: <value>\\n' (pinned by the library's own Test_MarshalText_Panic and CHANGELOG 0.8.0)",
 			"two corners the statement leaves open are not generated: an error returned with a non-nil but empty slice; hooks that mutate the case they are handed. A non-empty list for a type lacking the interface is expected to be reported whatever the constraints of its cases (the type is a property of T, not of a case; anchor: interface check on the first case)",
 			"failures are attributed to cases by bracketing recorder events between the scripted collaborator invocations of consecutive cases",
-			"lists longer than 64 cases and types other than the nine scripted shapes are outside the bound",
+			"lists longer than 64 cases and types other than the eleven scripted shapes are outside the bound",
 		},
 		Real: []string{"test.MarshalText/Binary/JSON", "test.UnmarshalText/Binary/JSON", "callForCase, safe*, castToFunc, helperNew, helperAssert*", "AnyError/Error/ErrorHasPrefix/ErrorHasSuffix/ErrorMatch", "testify assert"},
-		Stub: []string{"types under test (scripted V, *P, *V, interface-typed Both, Str, Bytes, OnlyM, OnlyU, None)", "Before/After hooks (scripted)", "TestingT (recorder; FailNow returns / exits goroutine)", "TypeHelper (recording)"},
+		Stub: []string{"types under test (scripted V, *P, *V, interface-typed Both, Str, Bytes, Map, Num, OnlyM, OnlyU, None)", "Before/After hooks (scripted)", "TestingT (recorder; FailNow returns / exits goroutine)", "TypeHelper (recording)"},
 		Notes: map[string]string{
 			"sim_time_note": "C20 has no clock in it; sim_time_ns is 0 by construction",
 		},
@@ -69,11 +69,11 @@ func (Prop) EnumSize(tier string) int {
 // helpers x {V, *P} x behaviour x position
 func enumExtras() int { return 6*2*nBeh*nPos + 6*2*numWrong*2*2 + 3*2*nBeh*nPos + enumKinds() }
 
-// (d) string- and slice-kinded T: 6 helpers x {Str, Bytes} x behaviour x {no predicate,
+// (d) string-, slice-, map- and integer-kinded T: 6 helpers x {Str, Bytes, Map, Num} x behaviour x {no predicate,
 // AnyError, Error(met), HasPrefix(unmet), custom silent accept} x position x TypeHelper {0, 1}
 var kindPreds = [...]int{pNone, pAny, pExactMet, pPrefixUnmet, pCustomAccept}
 
-func enumKinds() int { return 6 * 2 * nBeh * len(kindPreds) * nPos * 2 }
+func enumKinds() int { return 6 * 4 * nBeh * len(kindPreds) * nPos * 2 }
 
 func extraSpec(r int) (ls listSpec, ok bool) {
 	a := 6 * 2 * nBeh * nPos
@@ -120,8 +120,8 @@ func extraSpec(r int) (ls listSpec, ok bool) {
 		r /= len(kindPreds)
 		c.beh = r % nBeh
 		r /= nBeh
-		ls.shape = shStr + r%2
-		r /= 2
+		ls.shape = shStr + r%4
+		r /= 4
 		ls.enc, ls.dir = r/2, r%2
 		if c.beh == bPanicAfterSet && ls.dir == dirMarshal {
 			return ls, false
@@ -471,7 +471,7 @@ func (Prop) RunEnum(i int, o core.RunOpts) *core.Result {
 	return finish(res, ls, o, []string{fmt.Sprintf("enumeration index %d", i)})
 }
 
-var shapeWeights = [...]int{shV, shV, shV, shP, shP, shP, shOnlyM, shOnlyU, shNone, shIface, shIface, shPV, shPV, shStr, shStr, shBytes, shBytes}
+var shapeWeights = [...]int{shV, shV, shV, shP, shP, shP, shOnlyM, shOnlyU, shNone, shIface, shIface, shPV, shPV, shStr, shStr, shBytes, shBytes, shMap, shMap, shNum, shNum}
 
 func genCase(t *core.Tape) caseSpec {
 	c := caseSpec{}
